@@ -1,3 +1,4 @@
+mod dynlocale;
 mod props;
 
 fn main() {
